@@ -51,11 +51,6 @@ def parseInlineDestination (line : Bytes) (pos : Nat) : Option (Nat × Nat × Na
 def isAsciiAlpha (c : UInt8) : Bool :=
   (decide (97 ≤ c) && decide (c ≤ 122)) || (decide (65 ≤ c) && decide (c ≤ 90))
 
-/-- `i+run >= len(line) || line[i+run] != '`'` on `line[i+run:]` -/
-def notTickNext : Bytes → Bool
-  | d :: _ => d != 96
-  | [] => true
-
 /-- what a test does to the current byte -/
 inductive Step
   /-- consume `adv ≥ 1` bytes, go on with `len(linkStack) = depth`, `codeSpanLen = cs`; `emit`:
@@ -71,10 +66,11 @@ def handler (t : Test) (depth cs : Nat) (c : UInt8) (rest : Bytes) : Option Step
   | .codeSpan =>
     if cs > 0 then
       if c == 96 then
+        -- a backtick string is passed over as a whole; one of a different length is content
+        -- (fix 8b404d9; before it such a string was passed one backtick at a time and its tail
+        -- could be taken for the closing string)
         let run := countRun 96 (c :: rest)
-        if run == cs && notTickNext ((c :: rest).drop run)
-        then some (.go run depth 0 none)
-        else some (.go 1 depth cs none)
+        some (.go run depth (if run == cs then 0 else cs) none)
       else some (.go 1 depth cs none)
     else none
   | .rawCloser => none   -- html.rawCloser is empty
